@@ -9,6 +9,7 @@
 //! Result: one token per event (`T:M<id>|T:N|T:X`, `E:ok|E:err`, `O:<M|N|X>:<content>`), then `| P<id|->`.
 //!
 //! Mode `e2e` (argv[2]): case line `seed popt prune stealth`; see `e2e_case`.
+//! Mode `iter` (argv[2]): the real TreeIterator on a given item stream; see `iter_case`.
 //! Mode `mem` (argv[2]): backups of in-memory sources with freely chosen metadata; see `mem_case`.
 use std::collections::BTreeMap;
 use std::ffi::OsString;
@@ -697,7 +698,7 @@ fn rd_state(t: &mut Toks) -> MemSource {
     MemSource(v)
 }
 
-/// `ic ii skip nstates state*  nparents idx*`: states 0..n-2 are backed up with `force` (every file
+/// `ic ii skip nstates state*  nparents idx*  [gh gl gp gt {host label time}*nstates]`: states 0..n-2 are backed up with `force` (every file
 /// read), the last one with the given parent options (explicit parents = snapshots of the listed
 /// states, none listed = latest), then once more with `force`; every file of the parent-based
 /// snapshot is dumped and compared with the source bytes.
@@ -710,6 +711,26 @@ fn mem_case(line: &str) -> String {
     let states: Vec<MemSource> = (0..ns).map(|_| rd_state(&mut t)).collect();
     let np = t.u();
     let pidx: Vec<usize> = (0..np).map(|_| t.u() as usize).collect();
+    // optional: group criterion and (host, label, time) of every state's snapshot (the last = the new one)
+    let mut crit: Option<String> = None;
+    let mut attrs: Vec<(u64, u64, u64)> = Vec::new();
+    if let Some(first) = t.opt_s() {
+        let flags = [first.parse::<u64>().unwrap(), t.u(), t.u(), t.u()];
+        let names = ["host", "label", "paths", "tags"];
+        crit = Some(names.iter().zip(flags).filter(|(_, f)| *f == 1).map(|(n, _)| *n).collect::<Vec<_>>().join(","));
+        for _ in 0..ns {
+            attrs.push((t.u(), t.u(), t.u()));
+        }
+    }
+    let mk_snap = |k: usize| -> SnapshotFile {
+        let mut sn = SnapshotFile::default();
+        if let Some((h, l, tm)) = attrs.get(k) {
+            sn.hostname = format!("h{h}");
+            sn.label = format!("l{l}");
+            sn.time = Timestamp::from_second(1_700_000_000 + *tm as i64).unwrap().to_zoned(rustic_core::jiff::tz::TimeZone::UTC);
+        }
+        sn
+    };
     let res = (|| -> anyhow::Result<String> {
         let store = mem();
         let (repo, _key) = init_repo(store.clone(), None, &small_pack_config(6_000, 600), &repo_opts())?;
@@ -717,9 +738,9 @@ fn mem_case(line: &str) -> String {
         let force = BackupOptions::default().parent_opts(ParentOptions::default().force(true));
         let mut repo = repo;
         let mut ids = Vec::new();
-        for st in &states[..ns - 1] {
+        for (k, st) in states[..ns - 1].iter().enumerate() {
             let r = repo.to_indexed_ids()?;
-            let sn = r.archive(&force, st, SnapshotFile::default(), &paths)?;
+            let sn = r.archive(&force, st, mk_snap(k), &paths)?;
             ids.push(sn.id.to_hex().to_string());
             repo = r.drop_index();
         }
@@ -728,8 +749,13 @@ fn mem_case(line: &str) -> String {
         if !pidx.is_empty() {
             po = po.parents(pidx.iter().map(|i| ids[*i].clone()).collect::<Vec<_>>());
         }
+        if let Some(c) = &crit {
+            po = po.group_by(Some(c.parse::<rustic_core::SnapshotGroupCriterion>().map_err(|e| anyhow::anyhow!("{e:?}"))?));
+        }
         let r = repo.to_indexed_ids()?;
-        let snap2 = r.archive(&BackupOptions::default().parent_opts(po), cur, SnapshotFile::default(), &paths)?;
+        let snap2 = r.archive(&BackupOptions::default().parent_opts(po), cur, mk_snap(ns - 1), &paths)?;
+        let sel: Vec<String> = snap2.parents.iter().map(|p| ids.iter().position(|i| *i == p.to_hex().to_string()).map_or("?".to_string(), |k| k.to_string())).collect();
+        let sel = if sel.is_empty() { "-".to_string() } else { sel.join(",") };
         let sum2 = snap2.summary.clone().unwrap_or_default();
         let saved2 = store.list(FileType::Snapshot)?.iter().any(|i| *i == *snap2.id);
         let repo = r.drop_index();
@@ -752,8 +778,8 @@ fn mem_case(line: &str) -> String {
         let snap_f = r.archive(&force, cur, SnapshotFile::default(), &paths)?;
         let sum_f = snap_f.summary.clone().unwrap_or_default();
         Ok(format!(
-            "ok tree_equal={} dump={} saved2={} parents_used={} unmod={} changed={} new={} f_new={}",
-            u8::from(snap2.tree == snap_f.tree), dump, u8::from(saved2), snap2.parents.len(),
+            "ok tree_equal={} dump={} saved2={} parents_used={} sel={} unmod={} changed={} new={} f_new={}",
+            u8::from(snap2.tree == snap_f.tree), dump, u8::from(saved2), snap2.parents.len(), sel,
             sum2.files_unmodified, sum2.files_changed, sum2.files_new, sum_f.files_new
         ))
     })();
@@ -761,6 +787,51 @@ fn mem_case(line: &str) -> String {
         Ok(s) => s,
         Err(e) => format!("error {}", format!("{e:#}").replace('\n', " ")),
     }
+}
+
+// ------------------------------------------------------------------ iter mode (TreeIterator)
+
+/// `fuel nitems { ncomps comp* node }`, comp := 0 (`/`) | 1 (`.`) | 2 (`..`) | 3 name.
+/// Output: one token per item the real TreeIterator yields (`N:<name>:<node name>:<mode>:<mtime>`,
+/// `E`, `O:<node name>:<mode>:<mtime>`), `diverges` when it is not exhausted after fuel-1 items.
+fn iter_case(line: &str) -> String {
+    use rustic_core::verif_hooks::c11::{IterItem, tree_iterator_items};
+    let mut t = Toks::new(line);
+    let fuel = t.u() as usize;
+    let n = t.u();
+    let mut items = Vec::new();
+    for _ in 0..n {
+        let nc = t.u();
+        let mut p = PathBuf::new();
+        for _ in 0..nc {
+            match t.u() {
+                0 => p.push("/"),
+                1 => p.push("."),
+                2 => p.push(".."),
+                _ => p.push(name_of(t.u())),
+            }
+        }
+        items.push((p, rd_node(&mut t)));
+    }
+    let out = tree_iterator_items(items, fuel);
+    if out.len() >= fuel {
+        return "diverges".to_string();
+    }
+    let nm = |n: &Node| n.name().to_string_lossy().trim_start_matches('n').trim_start_matches('0').to_string();
+    let fix = |s: String| if s.is_empty() { "0".to_string() } else { s };
+    let mt = |n: &Node| n.meta.mtime.map_or("-".to_string(), |x| x.as_nanosecond().to_string());
+    let toks: Vec<String> = out
+        .iter()
+        .map(|i| match i {
+            IterItem::NewTree(_, node, name) => {
+                let c = fix(name.to_string_lossy().trim_start_matches('n').trim_start_matches('0').to_string());
+                format!("N:{c}:{}:{}:{}", fix(nm(node)), node.meta.mode.unwrap_or(0), mt(node))
+            }
+            IterItem::EndTree => "E".to_string(),
+            IterItem::Other(_, node) => format!("O:{}:{}:{}", fix(nm(node)), node.meta.mode.unwrap_or(0), mt(node)),
+        })
+        .collect();
+    if toks.is_empty() { "-".to_string() } else { toks.join(" ") }
 }
 
 fn repo_reopen(store: &std::sync::Arc<rustic_testing::backend::in_memory_backend::InMemoryBackend>, key: &rustic_core::repofile::MasterKey) -> anyhow::Result<RepoOpen> {
@@ -785,11 +856,13 @@ fn main() {
     if std::env::var("C11_DEBUG").is_ok() {
         // no panic hook, no catch: show where a case fails
         for l in std::fs::read_to_string(std::env::args().nth(1).unwrap()).unwrap().lines() {
-            println!("{}", if mode == "e2e" { e2e_case(l) } else if mode == "mem" { mem_case(l) } else { hook_case(l) });
+            println!("{}", if mode == "e2e" { e2e_case(l) } else if mode == "mem" { mem_case(l) } else if mode == "iter" { iter_case(l) } else { hook_case(l) });
         }
         return;
     }
-    if mode == "mem" {
+    if mode == "iter" {
+        for_each_case(|l| iter_case(l));
+    } else if mode == "mem" {
         for_each_case(|l| mem_case(l));
     } else if mode == "e2e" {
         for_each_case(|l| e2e_case(l));
